@@ -218,12 +218,8 @@ fact("lemma_r2g_u1", "u1 = (Z' + Y')(Z' - Y') == f^2 ((a - d) e^2)", ["e", "f", 
      (((f * h) + (g * f)) * ((f * h) - (g * f)), SQ(f) * (cc * SQ(e))), ["f * f"])
 ident("lemma_r2g_rot_x", "(g f) i == (f i) g", (g * f) * ii, (f * ii) * g, order=["f", "g", "ii"])
 J, u1, u2, T, Z = A("jj"), A("u1"), A("u2"), A("tt"), A("zz")
-hypA = ((u1 * SQ(u2)) * SQ(J), one)          # v * J^2 == 1   (contract of invsqrt on a non-zero square v = u1 u2^2)
-fact("lemma_r2g_z_inv", "z_inv Z' == 1 for z_inv = (J u1)(J u2) T', when u2 == T' Z' and J^2 (u1 u2^2) == 1",
-     ["jj", "u1", "u2", "tt", "zz"],
-     [hypA, (u2, T * Z)],
-     ((((J * u1) * (J * u2)) * T) * Z, one),
-     ["1", "0 - ((jj * u1) * (jj * u2))"], canon=["u2"])
+ident("lemma_r2g_m_z_inv", "z_inv Z' regrouped: (((J u1)(J u2)) T') Z' == (u1 (u2 (T' Z')))(J J)",
+      (((J * u1) * (J * u2)) * T) * Z, (u1 * (u2 * (T * Z))) * (J * J))
 # factorisations of the last factor of s
 ident("lemma_r2g_plain_q_p", "Z' - Y' == f (h - g)", (f * h) - (g * f), f * (h - g), order=["f", "g", "h"])
 ident("lemma_r2g_plain_q_n", "Z' - (-Y') == f (h - (-g))", (f * h) - (-(g * f)), f * (h - (-g)), order=["f", "g", "h"])
